@@ -100,3 +100,46 @@ def Trace.subtrace : Trace → List String → Option Trace
   | _, _ => none
 
 end GenjaxVerif.GFI
+
+namespace GenjaxVerif.GFI
+open GenjaxVerif
+
+def nthElem (elems : List Trace) (k : Nat) : Except Err Trace :=
+  match elems[k]? with | some t => .ok t | none => .error .shape
+
+/-- `Vmap.edit_index` / `Scan.edit_index`: apply a sub-request (`Update c` for mode `upd`,
+    `Regenerate sel` for mode `regen`) to element `idx` of a vector trace, with unchanged arguments.
+    The key is handed to the sub-edit as it is (no split).  For a scan the next iteration is
+    re-scored with the new carry (`Update(empty)`, same key) and must return what it returned
+    before (the implementation asserts its return diff is NoChange). -/
+def editIndex (ds : DistSem) (m : Mode) (prog : Prog) (key : KeyPath) (t : Trace) (idx : Nat) (c : CMap) (sel : Sel) :
+    Except Err Res :=
+  match prog, t with
+  | .vmap p axes, .vec args _ elems => do
+    let as ← argList args
+    let ea ← sliceArgs axes as idx
+    let old ← nthElem elems idx
+    let r ← run ds m p { c, sel, old := some old, key, args := .tup ea }
+    let elems' := elems.set idx r.tr
+    pure ⟨.vec args (.arr (elems'.map (·.ret))) elems', r.w, CMap.pre [.i idx] r.bwd, r.bwdOk⟩
+  | .scan p _, .vec args (.tup [oldFin, .arr ys]) elems => do
+    let old ← nthElem elems idx
+    let r ← run ds m p { c, sel, old := some old, key, args := old.args }
+    let (carry', y') ← match r.tr.ret with
+      | .tup [c', y'] => pure (c', y')
+      | _ => .error .shape
+    let ys' := ys.set idx y'
+    if idx + 1 < elems.length then do
+      let next ← nthElem elems (idx + 1)
+      let x ← match next.args with
+        | .tup [_, x] => pure x
+        | _ => .error .shape
+      let rn ← run ds .upd p { c := [], sel := .none, old := some next, key, args := .tup [carry', x] }
+      if !(rn.tr.ret.beq next.ret) then throw .notSupported     -- `assert Diff.static_check_no_change(retdiff)`
+      let elems' := (elems.set idx r.tr).set (idx + 1) rn.tr
+      pure ⟨.vec args (.tup [oldFin, .arr ys']) elems', r.w + rn.w, CMap.pre [.i idx] r.bwd, r.bwdOk⟩
+    else
+      pure ⟨.vec args (.tup [carry', .arr ys']) (elems.set idx r.tr), r.w, CMap.pre [.i idx] r.bwd, r.bwdOk⟩
+  | _, _ => .error .notSupported
+
+end GenjaxVerif.GFI
